@@ -489,6 +489,14 @@ func main() {
 		baseSeed = v
 	}
 	fmt.Printf("check %s tier=%s VERIF_SEED=%d\n", id, *tier, baseSeed)
+	if strings.HasPrefix(id, "genplan:") {
+		// genplan:<PROP>:<seed> prints the plan of one run (debugging aid)
+		f := strings.Split(id, ":")
+		sd, _ := strconv.ParseUint(f[2], 10, 64)
+		bs, _ := json.Marshal(props.Generators[f[1]](sd, *tier))
+		fmt.Println(string(bs))
+		os.Exit(0)
+	}
 	if id == "warmup" {
 		b := build()
 		os.RemoveAll(b.dir)
